@@ -462,11 +462,54 @@ fn judge_param_case(pc: &ParamCase, d: Dialect, classic: bool) -> Result<(), Vio
     };
     let case = |compiled: &str| json!({"source": src, "dialect": d.name(), "args": args.show(), "args_hex": hex(&args.ser()), "expected_hex": hex(&want.ser()), "compiled": compiled, "family": pc.what});
     match code {
-        Err(e) => Err(Viol::new(&format!("param-family:compile-error:{}", d.name()), "compiles", e, case(""))),
+        Err(e) => return Err(Viol::new(&format!("param-family:compile-error:{}", d.name()), "compiles", e, case(""))),
         Ok(code) => match sut::run_consensus(&code, &args, RUN_COST) {
-            Ok(v) if v == want => Ok(()),
-            Ok(v) => Err(Viol::new(&format!("param-family:wrong-value:{}", d.name()), want.show(), v.show(), case(&disasm(&code)))),
-            Err(m) => Err(Viol::new(&format!("param-family:compiled-fails:{}", d.name()), want.show(), m, case(&disasm(&code)))),
+            Ok(v) if v == want => {}
+            Ok(v) => return Err(Viol::new(&format!("param-family:wrong-value:{}", d.name()), want.show(), v.show(), case(&disasm(&code)))),
+            Err(m) => return Err(Viol::new(&format!("param-family:compiled-fails:{}", d.name()), want.show(), m, case(&disasm(&code)))),
+        },
+    }
+    // second form: the same tree as ONE destructured parameter of a defun and of a defun-inline,
+    // applied to an opaque value (the call above rebuilds the argument with c, which lets the
+    // inliner take the pattern apart syntactically; an opaque argument needs path arithmetic)
+    let src2 = format!("(mod WHOLE_ {sig} (defun f1_ ({ps}) {leaf}) (defun-inline g1_ ({ps}) {leaf}) (list (f1_ WHOLE_) (g1_ WHOLE_)))", leaf = pc.leaf);
+    let w1 = want.first().cloned().unwrap_or_else(nil);
+    let want2 = list(vec![w1.clone(), w1]);
+    let code2 = if classic {
+        sut::compile_lib(&src2, false, &[])
+    } else {
+        sut::compile_modern(&src2, d.sigil(), ModernOpts::cli_default(d.stepping()), "*verif*.clsp", &[])
+            .map(|c| c.code)
+            .map_err(|e| e.1)
+    };
+    let case2 = |compiled: &str| json!({"source": src2, "dialect": d.name(), "args": args.show(), "args_hex": hex(&args.ser()), "expected_hex": hex(&want2.ser()), "compiled": compiled, "family": format!("{}:as-one-parameter", pc.what)});
+    match code2 {
+        Err(e) => return Err(Viol::new(&format!("param-family:compile-error:{}", d.name()), "compiles", e, case2(""))),
+        Ok(code) => match sut::run_consensus(&code, &args, RUN_COST) {
+            Ok(v) if v == want2 => {}
+            Ok(v) => return Err(Viol::new(&format!("param-family:wrong-value:{}", d.name()), want2.show(), v.show(), case2(&disasm(&code)))),
+            Err(m) => return Err(Viol::new(&format!("param-family:compiled-fails:{}", d.name()), want2.show(), m, case2(&disasm(&code)))),
+        },
+    }
+    // third form: a module with a constant and no function (the arguments then sit at other
+    // paths than next to a function table)
+    let src3 = format!("(mod {ps} {sig} (defconstant K_ 7) (list {leaf} K_))", leaf = pc.leaf);
+    let w1 = want.first().cloned().unwrap_or_else(nil);
+    let want3 = list(vec![w1, V::A(vec![7])]);
+    let code3 = if classic {
+        sut::compile_lib(&src3, false, &[])
+    } else {
+        sut::compile_modern(&src3, d.sigil(), ModernOpts::cli_default(d.stepping()), "*verif*.clsp", &[])
+            .map(|c| c.code)
+            .map_err(|e| e.1)
+    };
+    let case3 = |compiled: &str| json!({"source": src3, "dialect": d.name(), "args": args.show(), "args_hex": hex(&args.ser()), "expected_hex": hex(&want3.ser()), "compiled": compiled, "family": format!("{}:constant-no-function", pc.what)});
+    match code3 {
+        Err(e) => Err(Viol::new(&format!("param-family:compile-error:{}", d.name()), "compiles", e, case3(""))),
+        Ok(code) => match sut::run_consensus(&code, &args, RUN_COST) {
+            Ok(v) if v == want3 => Ok(()),
+            Ok(v) => Err(Viol::new(&format!("param-family:wrong-value:{}", d.name()), want3.show(), v.show(), case3(&disasm(&code)))),
+            Err(m) => Err(Viol::new(&format!("param-family:compiled-fails:{}", d.name()), want3.show(), m, case3(&disasm(&code)))),
         },
     }
 }
@@ -532,7 +575,7 @@ impl Prop for C01Prop {
         "C01"
     }
     fn rule(&self) -> &'static str {
-        "Type-directed generator of well-scoped Chialisp programs (defun incl. recursive templates, defun-inline, defconstant, defconst, defmacro templates, let/let*/assign with hints and destructuring, lambda with captures, function names as values, &rest call tails incl. tails supplying positional parameters, (@ name pattern), nested/improper parameter lists, 0..40 parameters, nested mod, if/list/qq, value-returning operators, int/string/hex literals incl. 64-byte and zero-prefixed), rendered under each of the six modern sigils with the options the command line derives, run on 3 generated argument trees. Oracle: the harness's own call-by-value reference interpreter; whenever it yields a value the compiled CLVM run by clvmr must yield exactly that value. Plus the systematic parameter family: every flat list of 1..40 parameters and every binary parameter tree with <= 5 leaves (bare and under an (@ W ..) capture), every leaf, referenced directly, through a defun and through a defun-inline, in every dialect. Non-trivial: accepted by the compiler, reference value defined for at least one argument tree, and the program uses a call, inline expansion, let/assign, lambda, destructured/captured/rest parameter, macro or defconst. Distinct by hash of the rendered source + arguments."
+        "Type-directed generator of well-scoped Chialisp programs (defun incl. recursive templates, defun-inline, defconstant, defconst, defmacro templates, let/let*/assign with hints and destructuring, lambda with captures, function names as values, &rest call tails incl. tails supplying positional parameters, (@ name pattern), nested/improper parameter lists, 0..40 parameters, nested mod, if/list/qq, value-returning operators, int/string/hex literals incl. 64-byte and zero-prefixed), rendered under each of the six modern sigils with the options the command line derives, run on 3 generated argument trees. Oracle: the harness's own call-by-value reference interpreter; whenever it yields a value the compiled CLVM run by clvmr must yield exactly that value. Plus the systematic parameter family: every flat list of 1..40 parameters and every binary parameter tree with <= 5 leaves (bare and under an (@ W ..) capture), every leaf, referenced directly, through a defun and a defun-inline whose call rebuilds the arguments, through a defun and a defun-inline that take the whole tree as one destructured parameter applied to an opaque value, and in a module with a constant and no function, in every dialect. Non-trivial: accepted by the compiler, reference value defined for at least one argument tree, and the program uses a call, inline expansion, let/assign, lambda, destructured/captured/rest parameter, macro or defconst. Distinct by hash of the rendered source + arguments."
     }
     fn assumptions(&self) -> Vec<&'static str> {
         vec![
